@@ -11,6 +11,7 @@ import (
 	"fmt"
 	"github.com/hashicorp/go-multierror"
 	"io"
+	"math"
 	"os"
 	"sort"
 	"strings"
@@ -349,6 +350,21 @@ func polOpt(p int, node bool) []el.Option {
 		name := []string{"denyoverwrite", "ALLOWOVERWRITE", " DenyOverwrite", "", "DenyOverwrite\x00", "AllowOverwrite "}[(p-11)%6]
 		return []el.Option{mk(el.RegistrationPolicy(name))}
 	}
+}
+
+// threshold values: the small ones, and the extremes (a threshold is only ever compared, never used as a size)
+func thrValue(k int) int64 {
+	switch k {
+	case 7:
+		return 1 << 40
+	case 8:
+		return math.MaxInt64
+	case 9:
+		return math.MinInt64
+	case 10:
+		return -(1 << 40)
+	}
+	return int64(k%5 - 1)
 }
 
 // ---------- observations ----------
@@ -941,9 +957,9 @@ func genRandom(e *emitter, r *hc.Rand, n, maxLen int) {
 			case x < 86:
 				ops = append(ops, Op{K: "rpan", Ety: 1 + r.Intn(2), Pid: 1 + r.Intn(3), Wrap: r.Intn(4) / 3})
 			case x < 91:
-				ops = append(ops, Op{K: "thr", Ety: r.Intn(3), V: int64(r.Intn(5) - 1)})
+				ops = append(ops, Op{K: "thr", Ety: r.Intn(3), V: thrValue(r.Intn(12))})
 			case x < 95:
-				ops = append(ops, Op{K: "thrs", Ety: r.Intn(3), V: int64(r.Intn(5) - 1)})
+				ops = append(ops, Op{K: "thrs", Ety: r.Intn(3), V: thrValue(r.Intn(12))})
 			default:
 				f := 0
 				if nobj > 0 && r.Bool() {
